@@ -110,6 +110,8 @@ type ksEntry struct {
 	kid    string // X-Key-ID header ("" = derived by heimdall)
 	chain  bool   // with certificate chain
 	serial int64
+	dupCA  bool // the root certificate appears twice in the file (concatenated bundles); still a valid key store
+	noSig  bool // the leaf certificate lacks the digitalSignature key usage: the signer must reject the reload
 }
 
 type ksVersion struct {
@@ -136,7 +138,7 @@ var (
 
 func runCA() (*x509.Certificate, []byte) {
 	if runCACert == nil {
-		runCACert, runCADER = simkeys.MintCA(simkeys.FixtureKey("ec256b"), time.Now().Add(48*time.Hour))
+		runCACert, runCADER = simkeys.MintCA(simkeys.FixtureKey("ec256ca"), time.Now().Add(48*time.Hour))
 	}
 	return runCACert, runCADER
 }
@@ -157,11 +159,20 @@ func buildVersion(entries []ksEntry) ksVersion {
 		k := simkeys.FixtureKey(e.key)
 		v.thumbs = append(v.thumbs, thumb(k.Public()))
 		if e.chain {
-			caKey := simkeys.FixtureKey("ec256b")
+			caKey := simkeys.FixtureKey("ec256ca") // never used as a key-store entry
 			ca, caDER := runCA()
-			_, leafDER := simkeys.MintLeaf(ca, caKey, k, time.Now().Add(24*time.Hour), e.serial)
+			var leafDER []byte
+			if e.noSig {
+				_, leafDER = simkeys.MintLeafUsage(ca, caKey, k, time.Now().Add(24*time.Hour), e.serial, x509.KeyUsageKeyEncipherment)
+				v.valid, v.why = false, "leaf-without-digitalSignature"
+			} else {
+				_, leafDER = simkeys.MintLeaf(ca, caKey, k, time.Now().Add(24*time.Hour), e.serial)
+			}
 			buf.Write(simkeys.PEMCert(leafDER))
 			buf.Write(simkeys.PEMCert(caDER))
+			if e.dupCA {
+				buf.Write(simkeys.PEMCert(caDER))
+			}
 		}
 	}
 	v.pem = buf.Bytes()
@@ -278,6 +289,9 @@ func c16Sim(r *simcore.Run) {
 				e.kid = "id-" + k // one id per key: a key id is never reused for other key material
 			}
 			e.chain = s.Draw(4, "cert-chain") == 3
+			if e.chain {
+				e.dupCA = s.Draw(4, "dup-root") == 3
+			}
 			es = append(es, e)
 		}
 		// a configured key_id must exist in every version, otherwise the reload is legitimately rejected
@@ -367,7 +381,7 @@ func c16Sim(r *simcore.Run) {
 				}
 				w.reason = "torn-at-boundary"
 			case 3: // unsupported content replaces the file, then the valid version
-				bad := simcore.Pick(s, []string{"rsa1024", "ed25519", "garbage", "cert-only", "empty"}, "bad-content")
+				bad := simcore.Pick(s, []string{"rsa1024", "ed25519", "garbage", "cert-only", "empty", "no-digsig"}, "bad-content")
 				w.reason = "invalid:" + bad
 				w.torn = []int{-1}
 				switch bad {
@@ -377,13 +391,23 @@ func c16Sim(r *simcore.Run) {
 					w.torn = nil
 					w.v.valid = false
 				case "cert-only":
-					_, caDER := simkeys.MintCA(simkeys.FixtureKey("ec256b"), time.Now().Add(time.Hour))
+					_, caDER := simkeys.MintCA(simkeys.FixtureKey("ec256ca"), time.Now().Add(time.Hour))
 					w.v = ksVersion{pem: simkeys.PEMCert(caDER), why: "cert-only"}
 					w.raw = w.v.pem
 					w.torn = nil
 				case "empty":
 					w.v = ksVersion{pem: nil, why: "empty"}
 					w.raw = nil
+					w.torn = nil
+				case "no-digsig":
+					// a different key whose certificate must be rejected by the signer; every entry carries it so that
+					// the active entry is affected whichever it is
+					es := append([]ksEntry(nil), w.v.entries...)
+					for i := range es {
+						es[i].chain, es[i].noSig, es[i].dupCA = true, true, false
+					}
+					w.v = buildVersion(es)
+					w.raw = w.v.pem
 					w.torn = nil
 				default:
 					b, _ := os.ReadFile(simkeys.FixturePath(bad))
@@ -459,7 +483,10 @@ func c16Sim(r *simcore.Run) {
 				simsync.Yield("after-partial-write")
 			}
 			os.WriteFile(path, w.raw, 0o600)
-			exposed(w.raw, fmt.Sprintf("write#%d", i))
+			if w.v.why == "" {
+				// contents the loader must reject as a whole never become a legal published state
+				exposed(w.raw, fmt.Sprintf("write#%d", i))
+			}
 			if w.v.why != "" {
 				faultCounts["fault:invalid-content:"+w.v.why]++
 			}
